@@ -68,6 +68,11 @@ func worker(in, out string, skip, only int, timeoutMs, memMiB int) {
 	w := bufio.NewWriterSize(of, 1<<20)
 	m := &machine{out: json.NewEncoder(w), flush: w.Flush}
 	debug.SetGCPercent(200)
+	if os.Getenv("MQDRIVE_PROCS") != "all" {
+		// one P: sync.Pool, scheduling and allocation behave the same from run to run (the watchdog goroutine still
+		// preempts a runaway decode); the concurrency programs of C13 ask for all processors
+		runtime.GOMAXPROCS(1)
+	}
 	curProg.Store(-1)
 	// monitor: memory ceiling and per-program watchdog; exits the process, the supervisor takes over
 	go func() {
